@@ -129,7 +129,10 @@ def module_text(cond_text, lam_params, role="require", is_async=False, descripti
         lines.append(ind + a)
     start = len(lines) + 1
     for d in deco:
-        lines.append((ind + d) if d.strip() else "")
+        if d.startswith("<<"):
+            lines.append(d[2:])  # a continuation line written at column 0, whatever the nesting of the decorator is
+        else:
+            lines.append((ind + d) if d.strip() else "")
     end = len(lines)
     for b in below:
         lines.append(ind + b)
